@@ -761,15 +761,37 @@ func rewriteExprs(p *core.Program, f func(e core.E) core.E) *core.Program {
 	return q
 }
 
-// ParenNegNullSafe rewrites -X, X a null-safe data reference, to 0 - X (an
-// operand position the generator parenthesises).
+// wrapNullSafe puts the null-safe reference at the head of e (see hasNullSafe)
+// into `true ? X : X`, which the generator writes in parentheses and which
+// has exactly the value of X (undefined included).
+func wrapNullSafe(e core.E) core.E {
+	switch e["k"] {
+	case "var":
+		return core.ETern(core.EBool(true), e, e)
+	case "fn":
+		args := asEs(e["args"])
+		out := make(core.E, len(e))
+		for k, v := range e {
+			out[k] = v
+		}
+		nargs := append([]core.E{}, args...)
+		nargs[0] = wrapNullSafe(args[0])
+		out["args"] = nargs
+		return out
+	}
+	return e
+}
+
+// ParenNegNullSafe rewrites -X, X beginning with a null-safe data reference,
+// so that the reference is parenthesised in the generated code; the negation
+// itself stays.
 func ParenNegNullSafe(p *core.Program) (*core.Program, bool) {
 	n := 0
 	q := rewriteExprs(p, func(e core.E) core.E {
 		if e["k"] == "neg" {
 			if a := e["a"].(core.E); hasNullSafe(a) {
 				n++
-				return core.EBin("sub", core.EInt(0), a)
+				return core.ENeg(wrapNullSafe(a))
 			}
 		}
 		return e
@@ -777,8 +799,7 @@ func ParenNegNullSafe(p *core.Program) (*core.Program, bool) {
 	return q, n > 0
 }
 
-// ParenIsNonnullNullSafe rewrites isNonnull(X), X a null-safe data reference,
-// to not ((X ?: null) == null).
+// ParenIsNonnullNullSafe does the same for the argument of isNonnull.
 func ParenIsNonnullNullSafe(p *core.Program) (*core.Program, bool) {
 	n := 0
 	q := rewriteExprs(p, func(e core.E) core.E {
@@ -786,7 +807,7 @@ func ParenIsNonnullNullSafe(p *core.Program) (*core.Program, bool) {
 			args := asEs(e["args"])
 			if e["name"] == "isNonnull" && len(args) == 1 && hasNullSafe(args[0]) {
 				n++
-				return core.ENot(core.EBin("eq", core.EBin("elvis", args[0], core.ENull()), core.ENull()))
+				return core.EFn("isNonnull", wrapNullSafe(args[0]))
 			}
 		}
 		return e
@@ -795,7 +816,7 @@ func ParenIsNonnullNullSafe(p *core.Program) (*core.Program, bool) {
 }
 
 // ParenCssNullSafe rewrites {css X, s}, X a null-safe data reference, to
-// {css X ?: null, s}.
+// {css true ? X : X, s}.
 func ParenCssNullSafe(p *core.Program) (*core.Program, bool) {
 	q := CloneProgram(p)
 	n := 0
@@ -804,7 +825,7 @@ func ParenCssNullSafe(p *core.Program) (*core.Program, bool) {
 		for _, c := range cmds {
 			mapBodies(c, func(kind string, b []core.Cmd) []core.Cmd { return block(b) })
 			if c["k"] == "css" && c["has"].(bool) && hasNullSafe(c["e"].(core.E)) {
-				c["e"] = core.EBin("elvis", c["e"].(core.E), core.ENull())
+				c["e"] = wrapNullSafe(c["e"].(core.E))
 				n++
 			}
 		}
